@@ -210,7 +210,7 @@ void convertCheck(const std::string& bytes, const std::string& src, uint64_t see
 	for (auto s : b.GetShapes())
 		if (auto si = b.GetHeader().GetBlock<NiSkinInstance>(s->SkinInstanceRef()))
 			if (b.GetHeader().GetBlock(si->skinPartitionRef) && b.GetHeader().GetBlock(si->dataRef)) {
-				auto errs = checkPartitions(b, s, true);
+				auto errs = checkPartitions(b, s, true, nullptr, true, true);
 				if (!errs.empty()) { R_viol("conversion", dir + "/partition/" + invClass(errs[0]), what + " shape '" + s->name.get() + "' after conversion+reload: " + errs[0]); return; }
 				R_stat("converted_skinned_shapes_partition_checked");
 			}
@@ -264,6 +264,7 @@ void run(size_t idx) {
 		// an SSE file carries the weights twice (NiSkinData and BSTriShape vertex data): keep the two views consistent (<= 4 influences)
 		if (idx % 2) ao.maxInfluences = std::min(ao.maxInfluences, 4);
 		ao.extras = idx % 2 == 0;
+		ao.modelSpace = idx % 8 == 5;
 		bool unreferencedVerts = idx % 16 == 15;   // labelled stress dimension: vertices that no triangle uses
 		ao.everyVertexUsed = !unreferencedVerts;
 		ApiModel m = buildApiModel(seed, (int)idx, &ao);
